@@ -296,7 +296,7 @@ def run(tier, seed):
             out.append({'class': cls.__name__, 'callables': ['%s (%s)' % c for c in callables_of(cls)]})
         return out
     return base.run_state_property(
-        PROP, LEVEL, state_fn, tier, seed, which=base.NO_LONG, reduced=base.REDUCED_LIGHT, modes=(True, False), params=params, flavours=(0, 1, 2),
+        PROP, LEVEL, state_fn, tier, seed, thorough_full=(0, 1), which=base.NO_LONG, reduced=base.REDUCED_LIGHT, modes=(True, False), params=params, flavours=(0, 1, 2),
         vacuity={'mutating_calls': 100, 'frozen_calls': 1000, 'api_calls': 10000}, sample_fn=samples,
         assumptions=['the callable list is found by introspection of the installed networkx (%s); arguments are synthesised per parameter name' % nx.__version__,
                      'objects returned by inherited calls (views, networkx copies) are not G and are not checked'],
